@@ -24,14 +24,18 @@ func init() {
 			"R3 a transfer function lists the children of the node it sends on the side the node comes from, and every call hands it a node fetched from that side; " +
 			"R4 the two child listings of the recursive descent take the same (type, includeDeleted) arguments and include deleted children, since the stored hash ranges over tombstoned edges; " +
 			"R5 every point subscription of the sync client forwards the decoded (id[, parent], points) unchanged to the other instance; " +
-			"R6 the comparing function returns success only after it fetched the node from both instances (no shortcut decided from local state). " +
-			"Not decided: message loss and ordering on NATS, reconnect timing, convergence over histories, the discovery handshake for nodes created upstream, the undelete special case, scenarios with more than two entries per list.",
+			"R6 the comparing function returns success only after it fetched the node from both instances (no shortcut decided from local state); " +
+			"R7 (package store) the hash the catch-up prunes on commits together with the rows it covers: on every transaction a Commit that follows an INSERT into node_points / edge_points / edges also follows the statement that stores edges.hash, executed on the same transaction (callees summarised by what they may run on a transaction parameter; a store skipped for a zero delta is accepted); " +
+			"R8 every \"link is up\" report reaches the run loop: the callbacks the REMOTE connect options register for connect and reconnect end, on every path, with a send of the value that makes the run loop catch up on the link-state channel, made by a plain send or a select whose only alternatives end the client (no default arm, no timeout), and no callback reports from a goroutine of its own. " +
+			"Not decided: message loss and ordering on NATS, how long the run loop takes to return to its select, convergence over histories, the discovery handshake for nodes created upstream, the undelete special case, scenarios with more than two entries per list, that the stored hash value is the right one (C03).",
 		Assumptions: []string{
 			"a point that is older than or equal to the stored one is ignored by the receiving store (C01), hence superfluous sends are harmless and only missing ones are reported",
 			"point identities (type, key) are unique within the point list of a node; child ids are unique within a listing",
 			"GetNodes(parent, id) returns edges of the node `id`, so both copies carry the same id and, for a non-root node, the same parent",
 			"NATS delivers requests and publications; errors returned by a send abort the judged path",
 			"the polarity of the boolean guard around the upstream forward in the run loop (`connected`) is not decided",
+			"the nats client runs the callbacks of one connection one after the other, in the order of the events (R8 relies on it for the order of reports)",
+			"a \"link is down\" report may be lost: the blocking \"up\" report of the reconnect still arrives after it",
 		},
 		Run: runC02,
 	})
@@ -2273,7 +2277,10 @@ func runC02(c *kit.Ctx) {
 	r4 := c.Rule("R4", "child listings agree and cover deleted children", 3)
 	r5 := c.Rule("R5", "point subscriptions forward unchanged to the other side", 4)
 	r6 := c.Rule("R6", "catch-up succeeds only after consulting both instances", 1)
+	r7 := c.Rule("R7", "stored hash commits together with the rows it covers", 2)
+	r8 := c.Rule("R8", "link-up reports reach the run loop", 3)
 
+	c02Atomic(c, r7)
 	m := c02Discover(c)
 	m.typeSides(r1)
 	for _, cf := range m.connFs {
@@ -2293,5 +2300,6 @@ func runC02(c *kit.Ctx) {
 	m.checkListings(r4)
 	m.checkForwarding(r5)
 	m.checkBothFetches(r6)
+	c02LinkState(m, r8)
 	c02Tables(m, r2)
 }
